@@ -66,15 +66,34 @@ def run(ctx):
     ctx.floor('server registries written by creation sites', len(regs), 2)
     loops = [n for st in t.finalbody for n in walk_local(st) if isinstance(n, ast.For)]
     covered = set()
+
+    def iter_text(lp):
+        # follow one local: `closing = list(chain(self.children, ...))` ; `for child in closing`
+        if isinstance(lp.iter, ast.Name):
+            for st in t.finalbody:
+                if isinstance(st, ast.Assign) and is_name(st.targets[0], lp.iter.id):
+                    return norm(st.value)
+        return norm(lp.iter)
     for lp in loops:
         for r in regs:
-            if f'self.{r}' in norm(lp.iter):
+            if f'self.{r}' in iter_text(lp):
                 covered.add(r)
+    # the registries stay populated until the reap loop is over: the SIGTERM handler (and a second shutdown request) rely on them
+    reap = [lp for lp in loops if any(f'self.{r}' in iter_text(lp) for r in regs)]
+    if reap:
+        first_loop_idx = min(t.finalbody.index(st) for st in t.finalbody if any(lp is st or any(lp is x for x in ast.walk(st)) for lp in reap))
+        early = [c for i, st in enumerate(t.finalbody) if i < first_loop_idx for c in calls_in(st)
+                 if last_attr(c) in ('clear', 'pop', 'popitem') and (receiver(c) or '') in tuple(f'self.{r}' for r in regs)]
+        early += [st for i, st in enumerate(t.finalbody) if i < first_loop_idx and isinstance(st, ast.Assign) and any(is_self_attr(x) and x.attr in regs for x in st.targets)]
+        ctx.check('R1', 'the registries are emptied only after every child has been reaped', not early, 'RemoteServer.run', 'registry-cleared-before-reaping',
+                  'the shutdown path empties children/contexts before it has terminated them: a SIGTERM that arrives while the server is still reaping (e.g. the forced kill of '
+                  'server.terminate(timeout) when a child needs its whole grace period) finds nothing to kill - the remaining children outlive the server and their parents block',
+                  where=loc(run_f, early[0]) if early else None)
     for r in sorted(regs):
         ctx.check('R1', f'RemoteServer.run: the shutdown loop covers the registry `{r}`', r in covered, 'RemoteServer.run', f'registry-not-reaped:{r}',
                   f'children registered in `{r}` are not terminated when the server stops: their processes outlive it and their parents never find out', where=loc(run_f, t))
     for lp in loops:
-        if any(f'self.{r}' in norm(lp.iter) for r in regs):
+        if any(f'self.{r}' in iter_text(lp) for r in regs):
             reap_loop_ok(ctx, run_f, lp, 'server')
     # graceful stop is absorbed -> finally -> normal return
     types = [set(ctx.an.handler_types(h, run_f)) for h in t.handlers]
